@@ -145,7 +145,14 @@ pub fn gen(rng: &mut Rng, tier: Tier) -> Case {
             }
         }
         Op::View {
-            spec: gen::gen_spec(rng, 3, 5, 60, true),
+            spec: if rng.chance(1, 10) {
+                // larger than the 64 KiB of one pipe buffer / reader block
+                let n = *rng.pick(&[8200usize, 9000, 12000]);
+                let vals: Vec<f64> = (0..n).map(|i| (i % 1000) as f64).collect();
+                Spec::from_vals(vec![n], &vals)
+            } else {
+                gen::gen_spec(rng, 3, 5, 60, true)
+            },
             input_npy: rng.chance(1, 2),
             in_precision: rng.range(0, 12),
             cmd: cmd.to_string(),
